@@ -17,35 +17,34 @@ THEOREMS = [
     "BeyondVerif.C14.pos_block_spectrum",
     "BeyondVerif.C14.run_tag",
     "BeyondVerif.C14.path_characterised",
-    "BeyondVerif.C14.path_independent_partial",
-    "BeyondVerif.C14.path_independent_fixed",
+    "BeyondVerif.C14.path_independent",
+    "BeyondVerif.C14.seq_eq_single_hop",
     "BeyondVerif.C14.back_restores",
-    "BeyondVerif.C14.back_restores_fixed",
     "BeyondVerif.C14.cov_follows_state",
-    "BeyondVerif.C14.copy_rebases",
+    "BeyondVerif.C14.copy_transparent",
+    "BeyondVerif.C14.svCopy_follows",
     "BeyondVerif.C14.local_orthonormal",
     "BeyondVerif.C14.local_equivariant",
     "BeyondVerif.C14.rot_cross",
     "BeyondVerif.C14.rot_norm",
     "BeyondVerif.C14.nonrotating_frames",
-    "BeyondVerif.C14W.local_after_reframe_differs",
-    "BeyondVerif.C14W.fixed_model_agrees",
-    "BeyondVerif.C14W.frame_after_local_recovers",
+    "BeyondVerif.C14W.old_setter_local_after_reframe_differs",
+    "BeyondVerif.C14W.old_setter_frame_after_local_recovers",
+    "BeyondVerif.C14W.current_model_path_independent",
     "BeyondVerif.C14W.laws",
     "BeyondVerif.C14W.loc_orth",
     "BeyondVerif.C14W.loc_equivariant",
 ]
-LEVEL_TEXT = ("Lean theorems about a state-machine model of Cov (tag, _orb_frame, private state copy and the frame it is currently expressed in, matrix) that is "
+LEVEL_TEXT = ("Lean theorems about a state-machine model of Cov (tag, _orb_frame, private state copy and the frame it is expressed in, matrix) that is "
               "generic in the matrix type: over real matrices every hop is a congruence M C M^T (symmetry, positive semi-definiteness and the characteristic polynomial "
-              "of the position block are preserved for every sequence); for every sequence of targets the final matrix is N C0 N^T with N determined by the last "
-              "target and - for QSW/TNW - by the last non-local frame visited (path_characterised), hence path independence for all sequences that end in a frame or "
-              "whose last non-local frame is the original one (path_independent_partial), for all sequences in the repaired model (path_independent_fixed); "
-              "back conversion restores; cov follows the state. to_qsw/to_tnw (hand template) are orthonormal and rotation-equivariant. The same model text, "
+              "of the position block are preserved for every sequence); for every sequence of targets the bookkeeping never moves and the final matrix is Mt C0 Mt^T "
+              "with Mt determined by the last target and the original state only (path_independent, full statement; seq_eq_single_hop); back conversion restores; "
+              "the covariance follows its state; Cov.copy is transparent. to_qsw/to_tnw (hand template) are orthonormal and rotation-equivariant. The same model text, "
               "instantiated with floats, is compared with the real Cov on random sequences fed with the real conversion matrices.")
-LEVEL_NOTE = ("full path independence is FALSE of the current code (known finding C14-local-after-reframe, kernel-checked witness); composition laws of the orientation "
-              "conversions are hypotheses (C02) tested numerically by the oracle; model hand-written, tied by correspondence; R -> double gap by tolerance only; "
+LEVEL_NOTE = ("composition laws of the orientation conversions are hypotheses (C02) tested numerically by the oracle; model hand-written, tied by correspondence; "
+              "R -> double gap by tolerance only; a Cov constructed with the name of a frame is outside the model (two open findings); "
               "Lean kernel + propext/Classical.choice/Quot.sound")
-TECHNIQUE = "Lean 4 proof (invariant over all hop sequences, Mathlib matrices) + kernel-decided counter-witness + differential correspondence of the same generic model on floats"
+TECHNIQUE = "Lean 4 proof (invariant over all hop sequences, Mathlib matrices) + kernel-decided witness of the guarded regression + differential correspondence of the same generic model on floats"
 TRUSTED = [
     "lean/BeyondVerif/Model/Cov.lean: hand-written model of Cov.frame setter / Cov.copy / StateVector.frame setter, generic in the matrix type; tied to beyond/orbits/cov.py by the correspondence run (tags exact, matrices rtol 1e-9)",
     "lean/templates/Local.tpl: hand-written to_qsw / to_tnw / expand, tied to beyond/frames/local.py by the correspondence op `tolocal`",
@@ -65,11 +64,10 @@ NOT_COVERED = [
     "EOP-dependent content of the conversion matrices (C02)",
 ]
 OPEN = [
-    "path_independent (full statement) is false of the current code: a QSW/TNW target reached after the covariance visited a frame other than the state's original one uses the axes of the re-framed private copy against a matrix rotated back to the original frame (known finding C14-local-after-reframe; kernel-checked witness C14W.local_after_reframe_differs; proposed_fixes/C14-cov-private-copy-reframed.diff, for which path_independent_fixed proves the full statement in the model)",
-    "a Cov constructed with the *name* of a frame (documented `frame (str)`, used by io/ccsds/cov.py) is outside the model: the real setter raises AttributeError and the covariance does not follow its state (known findings C14-frame-name-tag-unconvertible / -not-following; proposed_fixes/C14-cov-frame-name-not-resolved.diff); oracle only",
+    "a Cov constructed with the *name* of a frame (documented `frame (str)`, used by io/ccsds/cov.py) is outside the model: the real setter raises AttributeError and the covariance does not follow its state (known findings C14-frame-name-tag-unconvertible / -not-following, open; proposed_fixes/C14-cov-frame-name-not-resolved.diff not applied: behaviour change at CCSDS load); oracle only",
     "composition laws of Orientation.convert_to (Laws) and the block shape of the conversion matrices (PosShape) are hypotheses here (C02 proves them); the oracle evaluates them on the real matrices",
-    "local_orthonormal / local_equivariant are proved for the list model of to_qsw / to_tnw (templates/Local.tpl, R instantiation); the sequence theorems take orthogonality of toLocal as the matrix hypothesis LocOrth - the bridge between rows-as-lists and Matrix (Fin 3 + Fin 3) is not formalised",
-    "copy_rebases covers frame-tagged covariances; a copy taken while the tag is QSW/TNW after a re-framing inherits the defect above (exercised by the correspondence, no theorem)",
+    "local_orthonormal / local_equivariant are proved for the list model of to_qsw / to_tnw (templates/Local.tpl, R instantiation); the sequence theorems take orthogonality of toLocal at the original state as the matrix hypothesis LocOrth - the bridge between rows-as-lists and Matrix (Fin 3 + Fin 3) is not formalised",
+    "`sv.cov = c` (StateVector.cov setter) re-seats the private copy of `c` without updating `_orb_frame`; attaching a covariance built for a state in another frame is not modelled (the harness always attaches a covariance built from the same state)",
 ]
 RULE = ("correspondence: random sequences (length 1-5) of cov hops / state hops / copies over the 10 built-in frames + QSW/TNW from each non-rotating start frame, "
         "random orbits and PSD matrices, real conversion matrices handed to the compiled Lean model; bookkeeping fields exact, matrices rtol 1e-9; plus to_local alone; "
